@@ -981,10 +981,24 @@ pub fn gen_dense_graph(rng: &mut Rng, directed: bool, multi: bool, self_loops: b
         specs.dedupe = Dedupe::KeepLast;
     }
     if !es.is_empty() && rng.chance(2, 3) {
-        for _ in 0..rng.range(1, 3) {
-            let e = rng.pick(&es).clone();
-            let w = f64::from_bits(e.w);
-            let w2 = if w.is_nan() { w } else if rng.chance(1, 2) { w * 4.0 } else { w / 4.0 };
+        for i in 0..rng.range(1, 3) {
+            // the first replacement and half of the others move an extreme on purpose: some pair becomes heavier than the largest weight
+            // or lighter than the smallest, or the heaviest / lightest edge itself moves inwards
+            let fw = |e: &E| f64::from_bits(e.w);
+            let heaviest = es.iter().filter(|e| !fw(e).is_nan()).max_by(|a, b| fw(a).partial_cmp(&fw(b)).unwrap()).cloned();
+            let lightest = es.iter().filter(|e| !fw(e).is_nan()).min_by(|a, b| fw(a).partial_cmp(&fw(b)).unwrap()).cloned();
+            let (e, w2) = match (if i == 0 { rng.below(4) } else { rng.below(8) }, heaviest, lightest) {
+                (0, Some(h), _) => (rng.pick(&es).clone(), fw(&h) * 4.0),
+                (1, Some(h), _) => (h.clone(), fw(&h) / 4.0),
+                (2, _, Some(l)) => (rng.pick(&es).clone(), fw(&l) / 4.0),
+                (3, _, Some(l)) => (l.clone(), fw(&l) * 4.0),
+                _ => {
+                    let e = rng.pick(&es).clone();
+                    let w = fw(&e);
+                    (e, if w.is_nan() { w } else if rng.chance(1, 2) { w * 4.0 } else { w / 4.0 })
+                }
+            };
+            let w2 = if fw(&e).is_nan() { fw(&e) } else { w2 };
             ops.push(Op::AddEdge(E { u: e.u.clone(), v: e.v.clone(), w: wbits(w2), attr: None }));
         }
     }
